@@ -814,7 +814,7 @@ def pow_cases(draw, kind, tier, big=False):
         case['rk'] = t
         case['x'] = draw(utpm_data(D, P, shape, 'float', xc, base=POSBASE, base_im=('iv', -1.0, 1.0), mag=1.0))
     elif kind == 'rpow':
-        kinds = ['pyint', 'pyfloat', 'pyfloat', 'np.float64', 'np.int64', 'np.float32']
+        kinds = ['pyint', 'pyfloat', 'np.float32', 'np.float64', 'np.int64', 'np.float32']
         t = draw(st.sampled_from(kinds))
         if t == 'np.float32' and KF.is_open(KF_RPOW32):
             t = 'np.float64'
